@@ -67,8 +67,9 @@ type IdxCase struct {
 	Mutators [][]IdxMut `json:"mutators"`
 	Rounds   []IdxRound `json:"rounds"`
 	Optional []string   `json:"optional"`
-	SubQ     []IdxQuery `json:"subq"`             // queries evaluated inside query-change callbacks (C14)
-	TQCap    int        `json:"tq_cap,omitempty"` // capacity of the index task queue (0 = the library's 256)
+	SubQ     []IdxQuery `json:"subq"`              // queries evaluated inside query-change callbacks (C14)
+	TQCap    int        `json:"tq_cap,omitempty"`  // capacity of the index task queue (0 = the library's 256)
+	Flushes  int        `json:"flushes,omitempty"` // Flush calls of a background task
 }
 
 // IndexScenario: index queries equal the reference scan once Flush returned
@@ -123,6 +124,7 @@ func (IndexScenario) GenCase(r *rand.Rand, prop string) interface{} {
 		c.SubQ = append(c.SubQ, genIdxQuery(r))
 	}
 	c.TQCap = pick(r, 0, 0, 1, 1, 2, 3)
+	c.Flushes = pick(r, 0, 0, 1, 2, 4)
 	return c
 }
 
@@ -398,6 +400,17 @@ func (IndexScenario) Execute(sim *sched.Sim, ci interface{}, prop string, race b
 				wt.Close()
 			}
 		}))
+	}
+	// a second caller of Flush, at times of the scheduler's choosing: a
+	// Flush only vouches for the writes that were made before it was called
+	if c.Flushes > 0 {
+		n := c.Flushes
+		sim.Go("flusher", func() {
+			for i := 0; i < n; i++ {
+				sim.Yield("query.next", "flusher")
+				ir.qs.Flush()
+			}
+		})
 	}
 	isMut := func(t *sched.Task) bool { return strings.HasPrefix(t.Name, "mut") }
 	frozen := func(t *sched.Task) bool { return t.IsDone() || (t.IsParked() && t.Point == "mut.op") }
